@@ -1,6 +1,7 @@
 package main
 
 import (
+	"go/token"
 	"fmt"
 	"regexp"
 	"go/types"
@@ -239,6 +240,7 @@ type Obligation struct {
 	Query  string
 	exclTerm          *Term
 	splitPos          []string
+	splitReach        []Term
 	splitConds        []Term // branch conditions defined before this obligation (for case splitting on timeout)
 	knownExpectedFail *KnownFinding
 }
@@ -268,6 +270,7 @@ type retPoint struct {
 	reach Term
 	st    *State
 	vals  []Val
+	pos   token.Pos
 }
 
 type Run struct {
@@ -296,6 +299,9 @@ type Run struct {
 	conds     []Term
 	condMark  []int
 	condPos   []string
+	condReach []Term
+	firedAnchors map[string]bool
+	factGuard Term
 	nameCount map[string]int
 	localBoxes []localBox
 	escaping  map[string]bool
